@@ -199,6 +199,19 @@ class AuditProcFamily(Family):
                 d["fired"] += 1
         return d
 
+    def flowing_expiry(self, r):
+        """a correlated session with compound events left incomplete, then expiry while the stream keeps
+        flowing (the maintenance Go routine and the parser Go routine hand groups over concurrently)"""
+        pid = 100 + r.below(50)
+        ses = str(1 + r.below(9))
+        ops = [G(pid, "user%d" % pid), N(1, "s", "l", ses, str(pid), "s")]
+        for i in range(1 + r.below(3)):
+            seq = 2 + i
+            ops += [N(seq, "y", "o", ses, str(pid), r.choice("sf")), N(seq, "x", nargs=1 + r.below(2)), N(seq, "p", variant=r.below(2))]
+        ops.append("V")
+        ops.append(N(40, "s", "o", ses, str(pid), "s"))
+        return {"fail": "-", "ops": ops}
+
     def reasm_case(self, r, with_expiry):
         """the reassembler alone: few sequence numbers, every record kind in any order, a table so small
         that it overflows, optionally expiry"""
@@ -246,6 +259,9 @@ class AuditProcFamily(Family):
             cs.append(self.reasm_case(rng, False))
         for _ in range(6 if quick else 60):
             cs.append(self.reasm_case(rng, True))
+        flow = [self.flowing_expiry(rng) for _ in range(2 if quick else 12)]
+        # first, so that the thorough tier's race-detector pass (first cases) covers concurrent deliveries
+        cs = flow + cs
         return cs
 
     def extra_cases(self, rng, n):
